@@ -221,7 +221,9 @@ fn g3(mode: Mode, b1: u8, b2: u8, full: bool) -> Stats {
     let sreg = b1 & 3;
     let smode = (b1 >> 2) & 3;
     let dreg = b2 & 3;
-    let pcs: &[u8] = if full { &[0x00, 0x40, 0xE9, 0xEC] } else { &[0x40, 0xEC] };
+    // 0xEE / 0xEF: the instruction runs out of the RAM into the I/O page: its later bytes are fetched
+    // from 0xF0.. (the board's input port, set to the byte the code would have had there)
+    let pcs: &[u8] = if full { &[0x00, 0x40, 0xE9, 0xEC, 0xEE, 0xEF] } else { &[0x40, 0xEC, 0xEF] };
     let variants = if full { 4 } else { 2 };
     let flags: &[u8] = if full { &[0x00, 0x0F, 0xA5] } else { &[0x00, 0x0F] };
     let sps: &[u8] = &[0x7F, 0xEF];
@@ -254,6 +256,10 @@ fn g3(mode: Mode, b1: u8, b2: u8, full: bool) -> Stats {
                             c.cpu.sp = sp;
                             set_reg(&mut c, sreg, sv);
                             set_reg(&mut c, dreg, dv);
+                            if pc as usize + code.len() > 0xF0 {
+                                // the byte that falls on 0xF0 comes from the digital input port
+                                c.di1 = code[0xF0 - pc as usize];
+                            }
                             let ver = sw::run_case(&c);
                             st.take(mode, &group, &c, ver);
                         }
